@@ -60,13 +60,14 @@ type worldCfg struct {
 }
 
 var defaultConsensus = struct {
-	cm, warm, minFrozen uint64
-}{consensus.CoinbaseMaturity, consensus.MASSIP0002WarmUpHeight, consensus.MinFrozenPeriod}
+	cm, warm, minFrozen, minStaking uint64
+}{consensus.CoinbaseMaturity, consensus.MASSIP0002WarmUpHeight, consensus.MinFrozenPeriod, consensus.MinStakingValue}
 
 func restoreConsensus() {
 	consensus.CoinbaseMaturity = defaultConsensus.cm
 	consensus.MASSIP0002WarmUpHeight = defaultConsensus.warm
 	consensus.MinFrozenPeriod = defaultConsensus.minFrozen
+	consensus.MinStakingValue = defaultConsensus.minStaking
 }
 
 // newWorld sets up node + started wallet instance + wallets with addresses.
